@@ -14,8 +14,11 @@
       has no effect, in-order batches are accepted; a replay-protected transaction
       for another chain id, and an unprotected one while AllowUnprotectedTxs is
       false, are refused; a correctly signed transaction with the right nonce is
-      accepted.  They hold for ANY hash, recovery, signing and verification
-      functions.
+      accepted; a signed Ethereum message shipped on any other route (inside
+      authz.MsgExec, as a plain message of a Cosmos or EIP-712 transaction, ...)
+      is never executed there, over all histories, and the at-most-once theorem
+      holds over histories containing such submissions.  They hold for ANY hash,
+      recovery, signing and verification functions.
     - Theorems named [..._partial] carry, as explicit premises, ECDSA
       unforgeability ("a signature that verifies for an account over a digest was
       made by that account's key holder over a message with that digest") and
@@ -278,6 +281,150 @@ Theorem C03_tx_nonvacuous :
   = [Some [toy_addr 42; toy_addr 42]; None; None; Some [toy_addr 42]; None].
 Proof. exact (conj ex_batch_accepted (conj ex_interleaved_accepted (conj ex_bad_batches_rejected ex_history))). Qed.
 Print Assumptions C03_tx_nonvacuous.
+
+(** * Signed Ethereum messages shipped on any other route
+
+    A signed MsgEthereumTx can be put into a Cosmos transaction that is not its
+    own route: as an inner message of authz.MsgExec (alone, behind plain
+    messages, nested, beside other inner messages, wrapped by its own signer or
+    by somebody else), as a plain message of an ordinary or EIP-712-signed Cosmos
+    transaction, inside a wrapper behind the Ethereum extension option.  In the
+    model such a submission is [Wrapped w carried ok] ([w]: the wrapper's own
+    signed unit and shape, [carried]: the signed messages, [ok]: the verdict of
+    all other checks); its acceptance rule is "never".  Histories mix [Direct]
+    (the Ethereum route, [step_eth_tx]) and [Wrapped] submissions;
+    [executed_eth_any st h j k a n]: signed message [k] of submission [j] --
+    direct or carried -- was executed on behalf of [a] with nonce [n]. *)
+
+(** A wrapped submission is refused and changes nothing: for every wrapper, every
+    carried messages (valid for the current sequence, executed before, from the
+    future, of any signer), every verdict of the other checks. *)
+Theorem C03_wrapped_rejected :
+  forall (hash : list N -> list N) (recover : list N -> Z -> Z -> Z -> option (list N))
+         (cfg : chain_cfg) (W : Type) (st : list N -> N) (w : W) (carried : list eth_tx) (ok : bool),
+    step_eth_any hash recover cfg st (Wrapped w carried ok) = (st, None).
+Proof. exact @eth_wrapped_rejected. Qed.
+Print Assumptions C03_wrapped_rejected.
+
+(** Over ALL histories: submission [j] being a wrapper, its outcome is
+    "rejected" and the sequences after it are the sequences before it. *)
+Theorem C03_wrapped_no_effect :
+  forall (hash : list N -> list N) (recover : list N -> Z -> Z -> Z -> option (list N))
+         (cfg : chain_cfg) (W : Type) (h : list (@submission eth_tx W)) (st : list N -> N) (j : nat)
+         (w : W) (carried : list eth_tx) (ok : bool),
+    nth_error h j = Some (Wrapped w carried ok) ->
+    nth_error (outcomes_eth_any hash recover cfg st h) j = Some None /\
+    final_eth_any hash recover cfg st (firstn (S j) h) = final_eth_any hash recover cfg st (firstn j h).
+Proof. exact @eth_wrapped_no_effect. Qed.
+Print Assumptions C03_wrapped_no_effect.
+
+(** Over ALL histories: no signed Ethereum message at all is executed through a
+    wrapped submission -- for no account, no nonce, no position. *)
+Theorem C03_wrapped_never_executes :
+  forall (hash : list N -> list N) (recover : list N -> Z -> Z -> Z -> option (list N))
+         (cfg : chain_cfg) (W : Type) (h : list (@submission eth_tx W)) (st : list N -> N) (j : nat)
+         (w : W) (carried : list eth_tx) (ok : bool) (k : nat) (a : list N) (n : N),
+    nth_error h j = Some (Wrapped w carried ok) -> ~ executed_eth_any hash recover cfg st h j k a n.
+Proof. exact @eth_wrapped_never_executes. Qed.
+Print Assumptions C03_wrapped_never_executes.
+
+(** Replay through a wrapper: a message executed anywhere in the history (at
+    [j], for [a] with nonce [n]) is not executed by a wrapped submission [j']
+    (before or after), which is rejected without effect. *)
+Theorem C03_wrapped_replay_rejected :
+  forall (hash : list N -> list N) (recover : list N -> Z -> Z -> Z -> option (list N))
+         (cfg : chain_cfg) (W : Type) (h : list (@submission eth_tx W)) (st : list N -> N) (j k : nat) (a : list N) (n : N)
+         (j' : nat) (w : W) (carried : list eth_tx) (ok : bool) (k' : nat),
+    executed_eth_any hash recover cfg st h j k a n -> nth_error h j' = Some (Wrapped w carried ok) ->
+    ~ executed_eth_any hash recover cfg st h j' k' a n /\
+    nth_error (outcomes_eth_any hash recover cfg st h) j' = Some None /\
+    final_eth_any hash recover cfg st (firstn (S j') h) = final_eth_any hash recover cfg st (firstn j' h).
+Proof. exact @eth_wrapped_replay_rejected. Qed.
+Print Assumptions C03_wrapped_replay_rejected.
+
+(** Whatever is executed in such a history was submitted on the Ethereum route,
+    with a nonce not below the account's sequence before that submission and
+    below its sequence after it (the sequence has passed it). *)
+Theorem C03_executed_only_direct :
+  forall (hash : list N -> list N) (recover : list N -> Z -> Z -> Z -> option (list N))
+         (cfg : chain_cfg) (W : Type) (h : list (@submission eth_tx W)) (st : list N -> N) (j k : nat) (a : list N) (n : N),
+    executed_eth_any hash recover cfg st h j k a n ->
+    (exists (ms : list eth_tx) (ok : bool), nth_error h j = Some (Direct ms ok)) /\
+    (final_eth_any hash recover cfg st (firstn j h) a <= n
+     < final_eth_any hash recover cfg st (firstn (S j) h) a)%N.
+Proof. exact @eth_executed_only_direct. Qed.
+Print Assumptions C03_executed_only_direct.
+
+(** At most once still holds: over all histories that mix Ethereum-route and
+    wrapped submissions in any order, a given (account, nonce) is executed at
+    most once. *)
+Theorem C03_any_each_nonce_once :
+  forall (hash : list N -> list N) (recover : list N -> Z -> Z -> Z -> option (list N))
+         (cfg : chain_cfg) (W : Type) (h : list (@submission eth_tx W)) (st : list N -> N) (j k j' k' : nat) (a : list N) (n : N),
+    executed_eth_any hash recover cfg st h j k a n ->
+    executed_eth_any hash recover cfg st h j' k' a n -> j = j' /\ k = k'.
+Proof. exact @eth_any_each_nonce_once. Qed.
+Print Assumptions C03_any_each_nonce_once.
+
+(** Wrapped submissions are inert: deleting them from a history changes no
+    sequence; and a history without them is a [step_eth_tx] history. *)
+Theorem C03_wrapped_inert :
+  forall (hash : list N -> list N) (recover : list N -> Z -> Z -> Z -> option (list N))
+         (cfg : chain_cfg) (W : Type) (h : list (@submission eth_tx W)) (st : list N -> N),
+    final_eth_any hash recover cfg st h
+    = final_eth_any hash recover cfg st
+        (filter (fun x => match x with Direct _ _ => true | Wrapped _ _ _ => false end) h).
+Proof. exact @eth_wrapped_inert. Qed.
+Print Assumptions C03_wrapped_inert.
+
+Theorem C03_any_direct_only :
+  forall (hash : list N -> list N) (recover : list N -> Z -> Z -> Z -> option (list N))
+         (cfg : chain_cfg) (W : Type) (h : list (list eth_tx * bool)) (st : list N -> N),
+    outcomes_eth_any (W:=W) hash recover cfg st (map (fun x => Direct (fst x) (snd x)) h)
+    = outcomes_eth_tx hash recover cfg st h /\
+    final_eth_any (W:=W) hash recover cfg st (map (fun x => Direct (fst x) (snd x)) h)
+    = final_eth_tx hash recover cfg st h.
+Proof. exact @eth_any_direct_only. Qed.
+Print Assumptions C03_any_direct_only.
+
+(** The machine the correspondence run evaluates ([step_sub_any]: interned
+    accounts, recorded answers of the cryptographic oracle) is an instance:
+    wrapped submissions are refused without effect, direct ones are
+    [step_sub_tx], and every (account, nonce) executes at most once. *)
+Theorem C03_sub_wrapped_rejected :
+  forall (nd : node) (st : N -> N) (w : wrap) (carried : list sub) (ok : bool),
+    step_sub_any nd st (Wrapped w carried ok) = (st, None).
+Proof. exact sub_wrapped_rejected. Qed.
+Print Assumptions C03_sub_wrapped_rejected.
+
+Theorem C03_sub_any_each_nonce_once :
+  forall (nd : node) (h : list (@submission sub wrap)) (st : N -> N) (j k j' k' : nat) (a n : N),
+    executed_any N.eq_dec (auth_sub nd) sub_nonce st h j k a n ->
+    executed_any N.eq_dec (auth_sub nd) sub_nonce st h j' k' a n -> j = j' /\ k = k'.
+Proof. exact sub_any_each_nonce_once. Qed.
+Print Assumptions C03_sub_any_each_nonce_once.
+
+(** Non-vacuity.  Key 42 (sequence 5): nonce 5 executes on the Ethereum route;
+    then the SAME signed transaction inside a MsgExec behind a plain message (the
+    replay), the not yet executed nonce 6 inside a MsgExec, nonce 9 as a plain
+    Cosmos message, a nested wrapper carrying nonce 6, the replay and another
+    account's message -- every one rejected, the sequence stays 6; nonce 6 then
+    executes on the Ethereum route, once.  The premises of the theorems above hold
+    in this history (message 0 of submission 0 is executed for (key 42, nonce
+    5); submission 1 is a wrapper carrying that very message) and so does their
+    conclusion. *)
+Theorem C03_wrapped_nonvacuous :
+  (outcomes_eth_any toy_hash toy_recover ex_cfg ex_state ex_wrapped_history
+   = [Some [toy_addr 42]; None; None; None; None; Some [toy_addr 42]; None; None] /\
+   seq_of (final_eth_any toy_hash toy_recover ex_cfg ex_state ex_wrapped_history) = (7%N, 0%N) /\
+   seq_of (final_eth_any toy_hash toy_recover ex_cfg ex_state (firstn 5 ex_wrapped_history)) = (6%N, 0%N)) /\
+  (executed_eth_any toy_hash toy_recover ex_cfg ex_state ex_wrapped_history 0 0 (toy_addr 42) 5%N /\
+   nth_error ex_wrapped_history 1 = Some (Wrapped (ex_w 1 1) [ex_tx 42 5 1] true) /\
+   nth_error (msgs_of (Wrapped (ex_w 1 1) [ex_tx 42 5 1] true)) 0 = Some (ex_tx 42 5 1) /\
+   ~ executed_eth_any toy_hash toy_recover ex_cfg ex_state ex_wrapped_history 1 0 (toy_addr 42) 5%N /\
+   executed_eth_any toy_hash toy_recover ex_cfg ex_state ex_wrapped_history 5 0 (toy_addr 42) 6%N).
+Proof. exact (conj ex_wrapped_outcomes ex_wrapped_premises). Qed.
+Print Assumptions C03_wrapped_nonvacuous.
 
 (** * Ethereum route: the negative direction (partial: cryptographic premises) *)
 
